@@ -1,6 +1,7 @@
 // leaf-function commands through the verif hooks
 use crate::{bits_str, err_str, hex, unhex, Raw, Toks, UParse};
-use q_compress::data_types::NumberLike;
+use q_compress::data_types::{NumberLike, UnsignedLike};
+use std::panic::{catch_unwind, AssertUnwindSafe};
 use q_compress::verif_hooks as hk;
 
 fn opt_usize(s: &str) -> Option<usize> { if s == "-1" { None } else { Some(s.parse().unwrap()) } }
@@ -65,6 +66,22 @@ pub fn dispatch<T: Raw>(cmd: &str, t: &mut Toks) -> String where T::Unsigned: UP
       let unchecked = hk::reader_unchecked_read_diff::<T::Unsigned>(&mut r2, n);
       format!("{} {} {} {} {} {}", nbits, hex(&bytes), checked, c_idx, unchecked, hk::reader_bit_idx(&r2))
     }
+    // ctsearch <dt> <np> (<count> <lower_u> <upper_u>)*np <nq> <q_u>*nq : the compressor's lookup
+    // table over the prefixes (in the given order); answer "<shape> ; <lower-upper | none>*nq"
+    "ctsearch" => {
+      let np = t.usize();
+      let ps: Vec<_> = (0..np).map(|_| {
+        let count = t.usize();
+        let lo = T::Unsigned::parse_u(t.next());
+        let up = T::Unsigned::parse_u(t.next());
+        hk::new_prefix::<T>(count, vec![], T::from_unsigned(lo), T::from_unsigned(up), None, T::Unsigned::ONE)
+      }).collect();
+      let nq = t.usize();
+      let qs: Vec<T::Unsigned> = (0..nq).map(|_| T::Unsigned::parse_u(t.next())).collect();
+      let (shape, found) = hk::table_search::<T>(&ps, &qs);
+      let fs: Vec<String> = found.iter().map(|f| match f { Some((lo, up)) => format!("{}-{}", lo, up), None => "none".to_string() }).collect();
+      format!("{} ; {}", shape, if fs.is_empty() { "-".to_string() } else { fs.join(" ") })
+    }
     _ => panic!("unknown command {}", cmd),
   }
 }
@@ -125,6 +142,83 @@ pub fn dispatch_untyped(cmd: &str, t: &mut Toks) -> Option<String> {
       let mut w = hk::BitWriter::default();
       match hk::flags_write(&f, &mut w) { Ok(()) => format!("ok {}", hex(&w.drain_bytes())), Err(e) => err_str(&e) }
     }
+    "wordops" => cmd_wordops(t),
     _ => return None,
   })
+}
+
+fn guarded<R>(f: impl FnOnce() -> R) -> Option<R> { catch_unwind(AssertUnwindSafe(f)).ok() }
+
+fn bits01(bits: &[bool]) -> String {
+  if bits.is_empty() { return "-".to_string(); }
+  bits.iter().map(|&b| if b { '1' } else { '0' }).collect()
+}
+
+// wordops <writer ops> | <BitWords ops> <reader ops> : one BitWriter, then one BitReader over the
+// drained bytes (grammar in props/words_corr.py).  Every op runs under catch_unwind.
+// answer: "<bit size> <hex> <writer events | ok> ; <result>@<bit_idx> ..."
+fn cmd_wordops(t: &mut Toks) -> String {
+  let mut w = hk::BitWriter::default();
+  let mut events: Vec<String> = Vec::new();
+  let mut k = 0usize;
+  while !t.done() {
+    let op = t.next();
+    if op == "|" { break; }
+    let f: Vec<&str> = op.split(':').collect();
+    let r: Option<Option<String>> = guarded(|| match f[0] {
+      "o" => { w.write_one(true); None }
+      "z" => { w.write_one(false); None }
+      "w" => { let bs: Vec<bool> = if f[1] == "-" { vec![] } else { f[1].chars().map(|c| c == '1').collect() }; w.write(&bs); None }
+      "u" => { hk::writer_write_usize(&mut w, f[2].parse::<u64>().expect("bad u64") as usize, f[1].parse().unwrap()); None }
+      "d" => { hk::writer_write_diff::<u128>(&mut w, f[2].parse().expect("bad u128"), f[1].parse().unwrap()); None }
+      "D" => { hk::writer_write_diff::<u64>(&mut w, f[2].parse().expect("bad u64"), f[1].parse().unwrap()); None }
+      "v" => { hk::writer_write_varint(&mut w, f[1].parse().unwrap(), f[2].parse().unwrap()); None }
+      "f" => { hk::writer_finish_byte(&mut w); None }
+      "a" => match w.write_aligned_bytes(&unhex(f[1])) { Ok(()) => None, Err(e) => Some(format!("e{}:{}", k, crate::kind_str(e.kind))) },
+      "O" => { hk::writer_overwrite_usize(&mut w, f[1].parse().unwrap(), f[2].parse::<u64>().expect("bad u64") as usize, f[3].parse().unwrap()); None }
+      "q" => Some(format!("q{}:{}/{}", k, w.bit_size(), w.byte_size())),
+      _ => { eprintln!("bad wordops writer op {}", op); std::process::abort() }
+    });
+    match r { Some(None) => (), Some(Some(e)) => events.push(e), None => events.push(format!("p{}", k)) }
+    k += 1;
+  }
+  let nbits = w.bit_size();
+  hk::writer_finish_byte(&mut w);
+  let bytes = w.drain_bytes();
+  let head = format!("{} {} {}", nbits, hex(&bytes), if events.is_empty() { "ok".to_string() } else { events.join(",") });
+  // BitWords ops come first; the reader borrows the words afterwards
+  let mut words = hk::BitWords::from(&bytes);
+  let mut outs: Vec<String> = Vec::new();
+  let mut rest: Vec<&str> = Vec::new();
+  while !t.done() {
+    let op = t.next();
+    let f: Vec<&str> = op.split(':').collect();
+    if !rest.is_empty() || (f[0] != "x" && f[0] != "t") { rest.push(op); continue; }
+    let ok = guarded(|| match f[0] {
+      "x" => words.extend_bytes(unhex(f[1])),
+      _ => words.truncate_left(f[1].parse().unwrap()),
+    });
+    let total = hk::BitReader::from(&words).bits_remaining();
+    outs.push(format!("{}@{}", if ok.is_some() { f[0] } else { "panic" }, total));
+  }
+  let mut r = hk::BitReader::from(&words);
+  for op in rest {
+    let f: Vec<&str> = op.split(':').collect();
+    let n: usize = if f.len() > 1 { f[1].parse().unwrap() } else { 0 };
+    let kind = |e: q_compress::errors::QCompressError| crate::kind_str(e.kind).to_string();
+    let out = guarded(|| match f[0] {
+      "1" => match r.read_one() { Ok(b) => (b as u8).to_string(), Err(e) => kind(e) },
+      "b" => match r.read(n) { Ok(bs) => bits01(&bs), Err(e) => kind(e) },
+      "r" => match hk::reader_read_diff::<u128>(&mut r, n) { Ok(v) => v.to_string(), Err(e) => kind(e) },
+      "R" => match hk::reader_read_diff::<u64>(&mut r, n) { Ok(v) => v.to_string(), Err(e) => kind(e) },
+      "U" => hk::reader_unchecked_read_diff::<u128>(&mut r, n).to_string(),
+      "V" => hk::reader_unchecked_read_diff::<u64>(&mut r, n).to_string(),
+      "s" => { r.seek(n); "s".to_string() }
+      "S" => { r.seek_to(n); "S".to_string() }
+      "A" => match r.read_aligned_bytes(n) { Ok(bs) => hex(&bs), Err(e) => kind(e) },
+      _ => { eprintln!("bad wordops reader op {}", op); std::process::abort() }
+    });
+    outs.push(format!("{}@{}", out.unwrap_or_else(|| "panic".to_string()), hk::reader_bit_idx(&r)));
+  }
+  format!("{} ; {}", head, if outs.is_empty() { "-".to_string() } else { outs.join(" ") })
 }
